@@ -163,7 +163,12 @@ def onOp (s : St) (toks : List String) : St × List String :=
     | some m, some v =>
       let b := encode S m v
       let sz := if hasSizer root then toString (size S m v) else "-"
-      ({ s with lastVal := some v, implPb := none, pendingDec := none }, [s!"obs pb {hexBytes b} {sz}"])
+      -- non-vacuity / tie of the API predicate: every canonical payload the harness builds in a `value` case satisfies `ApiBuilt`
+      -- (and therefore, by `C08_api_jcov`, `jcov`)
+      let md := Mode.slots (S.slots m)
+      let fails := if s.kind == "value" && conf S false md v && !(apiVal S md v && jcov S m md v) then
+          s.fails ++ ["prop apibuilt=FAIL sig=C08/api/harness-value-not-apibuilt"] else s.fails
+      ({ s with lastVal := some v, implPb := none, pendingDec := none, fails := fails }, [s!"obs pb {hexBytes b} {sz}"])
     | _, _ => (s, ["obs bad-op"])
   | ["size", name, v] =>
     match rootIdx name, readVal v with
@@ -246,7 +251,7 @@ def handler : Handler St where
   onCase := fun s toks => { s with kind := (kv toks "kind").getD "", root := (kv toks "root").getD "" }
   onOp := onOp
   onObs := onObs
-  onEnd := fun s => if s.fails.isEmpty then ["prop size=ok", "prop pbrt=ok", "prop jsonrt=ok"] else s.fails
+  onEnd := fun s => if s.fails.isEmpty then ["prop size=ok", "prop pbrt=ok", "prop jsonrt=ok", "prop apibuilt=ok"] else s.fails
 
 end OtelVerif.Drivers.C08
 
